@@ -123,6 +123,11 @@ static void democraticheliocentric_to_inertial_posvel(struct reb_simulation* r){
         x0s /= ri_whfast512->p_jh0[s].m;
         y0s /= ri_whfast512->p_jh0[s].m;
         z0s /= ri_whfast512->p_jh0[s].m;
+        // Velocities are barycentric. The star carries the opposite momentum of all planets.
+        const double m0s = particles[s*N_per_system].m;
+        vx0s /= m0s;
+        vy0s /= m0s;
+        vz0s /= m0s;
         particles[s*N_per_system].x  = ri_whfast512->p_jh0[s].x - x0s;
         particles[s*N_per_system].y  = ri_whfast512->p_jh0[s].y - y0s;
         particles[s*N_per_system].z  = ri_whfast512->p_jh0[s].z - z0s;
